@@ -556,8 +556,15 @@ def bounds_summary(sym, env, which, leb):
 def bounds_while(leb):
     def h(sym, env, e):
         from rs2coq import coq_B
-        which = "front" if _has_mcall(e[1] if e[0] == "while" else e[2], "front") else "back"
+        which = "front" if _has_mcall(e[1] if e[0] in ("while", "loop") else e[2], "front") else "back"
         if sym.case.get("mode", "summary") == "summary":
+            bounds_summary(sym, env, which, leb); return ("unit",)
+        if e[0] == "loop":              # loop { match taps.front() { Some(..) if expired => pop, _ => break } }
+            from rs2coq import LoopBreak
+            try:
+                sym.block(e[1], env)
+            except LoopBreak:
+                return ("unit",)
             bounds_summary(sym, env, which, leb); return ("unit",)
         if e[0] == "whilelet":          # while let Some(..) = taps.front() { if expired { pop } else { break } }
             from rs2coq import LoopBreak, Env as _Env
@@ -721,7 +728,10 @@ def skip_while(sym, env, e):
     c = sym.ev(e[1], env)
     if c[0] != "B" or c[1] not in (("btrue",), ("bfalse",)): raise Unsupported("loop condition did not evaluate to a known boolean")
     if c[1] == ("btrue",):
-        sym.block(e[2], env)
+        try:
+            sym.block(e[2], env)
+        except _R.LoopBreak:
+            return ("unit",)
         selfv = env.get("self")
         cnt, inner = as_nat(selfv[1]["count"]), selfv[1]["inner"][2]
         i1 = "i%d" % sym.fresh(); sym.dyn_vars.append((i1, "src"))
@@ -1197,7 +1207,7 @@ def run_case(ent, case, body_ast, params_txt, assume=None):
         found = [st_[1] for st_ in body_ast[1] if st_[0] == "expr" and st_[1][0] == kind] + ([body_ast[2]] if body_ast[2] is not None and body_ast[2][0] == kind else [])
         def deep(node, acc):
             if isinstance(node, tuple):
-                if node and (node[0] == kind or (kind == "while" and node[0] == "whilelet")): acc.append(node)
+                if node and (node[0] == kind or (kind == "while" and node[0] in ("whilelet", "loop"))): acc.append(node)
                 for x_ in node: deep(x_, acc)
             elif isinstance(node, list):
                 for x_ in node: deep(x_, acc)
